@@ -44,6 +44,73 @@ func (e *Engine) newUnit(ct *Contract, prop string) *Unit {
 		aliasBase: map[*Region]*Region{}, except: map[string]*Term{}}
 }
 
+// VerifyMonotone proves the premise of `rec monotone`: for n > 0 the unfolded body is at least the value at n-1
+// (and the value for n <= 0 is 0 by the function's own first branch, checked as body(n<=0) >= 0).
+func (e *Engine) VerifyMonotone(ct *Contract, prop string) *UnitResult {
+	t0 := time.Now()
+	u := e.newUnit(ct, prop)
+	u.inc = NewIncSolver()
+	defer u.inc.Close()
+	res := &UnitResult{Key: ct.Key, Prop: prop}
+	defer func() {
+		if r := recover(); r != nil {
+			u.aborted = fmt.Sprintf("monotone step of %s: %v", ct.Key, r)
+		}
+		res.Obls, res.Unsup, res.Aborted, res.Wall = u.obls, u.unsup, u.aborted, time.Since(t0)
+		if len(u.unsup) > 0 || u.aborted != "" {
+			res.Obls = append(res.Obls, &Obligation{Name: ct.Key + "#subset", Kind: "subset", Tags: []string{"support"}, Goal: False, Func: ct.Key,
+				Res: &ProveResult{Status: "unsupported", Output: u.aborted + fmt.Sprint(u.unsup)}})
+		}
+	}()
+	fn := ct.Fn
+	st := newState()
+	var args []Value
+	for _, prm := range fn.Params {
+		args = append(args, u.havoc(st, prm.Type(), prm.Name()))
+	}
+	bi := -1
+	for i := len(args) - 1; i >= 0; i-- {
+		if iv, ok := args[i].(IntV); ok && iv.T.IsInt() {
+			bi = i
+			break
+		}
+	}
+	if bi < 0 {
+		u.aborted = "no bound argument"
+		return res
+	}
+	n := args[bi].(IntV).T
+	// body at n (one unfolding) and the application at n-1
+	u.recDepth = 1 // applications created while executing the body are not unfolded again
+	u.specMode++
+	s0 := st.clone()
+	base := len(s0.pc)
+	outs := u.callFn(s0, fn, args, nil, 1, "")
+	u.specMode--
+	u.recDepth = 0
+	prev := append([]Value(nil), args...)
+	prev[bi] = IntV{IntSub(n, IntK(1)), true}
+	for i, o := range outs {
+		body, ok := o.ret.(IntV)
+		if !ok {
+			u.aborted = "monotone function must return int"
+			return res
+		}
+		ps := o.st
+		u.recDepth = 1
+		pv := u.recCall(ps, fn, prev).(IntV).T
+		u.recDepth = 0
+		cond := True
+		if len(ps.pc) > base {
+			cond = And(ps.pc[base:]...)
+		}
+		_ = cond
+		goal := And(Implies(IntLt(IntK(0), n), IntLe(pv, body.T)), Implies(IntLe(n, IntK(0)), Eq(body.T, IntK(0))))
+		u.oblige(ps, fmt.Sprintf("%s#monotone-step.path%d", ct.Key, i), "inv-preserve", []string{"support"}, goal, "rec monotone")
+	}
+	return res
+}
+
 // Verify runs one function against its contract under the projection prop.
 func (e *Engine) Verify(ct *Contract, prop string, findings []Finding) (res *UnitResult) {
 	t0 := time.Now()
